@@ -1,4 +1,5 @@
 #pragma once
+#include "../common/verif_hooks.h"
 
 #include <chrono>
 #include <filesystem>
@@ -161,6 +162,7 @@ public:
     double t_avg_MGC_directSolver;
 
 private:
+    GMGPOLAR_VERIF_FRIEND
     /* --------------- */
     /* Grid Parameters */
     double R0_;
